@@ -67,7 +67,15 @@ fn insert_val<K: EnrKey>(e: &mut Enr<K>, k: &[u8], v: &Val, key: &K) -> Result<O
             &ll.iter().map(|l| l.iter().map(|b| Bytes::from(b.clone())).collect::<Vec<Bytes>>()).collect::<Vec<_>>(),
             key,
         ),
+        Val::Rec => e.insert(k, &example_record(), key),
+        Val::RecList => e.insert(k, &vec![example_record(), example_record()], key),
     }
+}
+
+/// the EIP-778 example record as a value of type `Enr` (an `Encodable` like any other)
+pub fn example_record() -> Enr<k256::ecdsa::SigningKey> {
+    let b = crate::util::unhex(EXAMPLE_RECORD_HEX).unwrap();
+    <Enr<k256::ecdsa::SigningKey> as alloy_rlp::Decodable>::decode(&mut &b[..]).expect("the EIP-778 example record decodes")
 }
 
 pub fn apply_op<K: EnrKey>(e: &mut Enr<K>, op: &Op, signer: &K, nonsigner: &K) -> Result<RetObs, enr::Error> {
@@ -79,6 +87,7 @@ pub fn apply_op<K: EnrKey>(e: &mut Enr<K>, op: &Op, signer: &K, nonsigner: &K) -
         }
         Op::Insert(k, v) => RetObs::PrevRaw(raw(insert_val(e, k, v, signer)?)),
         Op::InsertRaw(k, r) => RetObs::PrevRaw(raw(e.insert_raw_rlp(k, Bytes::from(r.clone()), signer)?)),
+        Op::InsertRawNested(k, depth) => RetObs::PrevRaw(raw(e.insert_raw_rlp(k, Bytes::from(rlp::nested_lists(*depth)), signer)?)),
         Op::SetIp(ip) => RetObs::PrevIp(e.set_ip(*ip, signer)?),
         Op::SetUdp4(p) => RetObs::PrevPort(e.set_udp4(*p, signer)?),
         Op::SetUdp6(p) => RetObs::PrevPort(e.set_udp6(*p, signer)?),
@@ -200,9 +209,18 @@ pub fn apply_build<K: EnrKey>(entries: &[BEntry], key: &K) -> Result<Enr<K>, enr
                         &ll.iter().map(|l| l.iter().map(|x| Bytes::from(x.clone())).collect::<Vec<Bytes>>()).collect::<Vec<_>>(),
                     );
                 }
+                Val::Rec => {
+                    b.add_value(k, &example_record());
+                }
+                Val::RecList => {
+                    b.add_value(k, &vec![example_record(), example_record()]);
+                }
             },
             BEntry::AddRaw(k, r) => {
                 b.add_value_rlp(k, Bytes::from(r.clone()));
+            }
+            BEntry::AddRawNested(k, depth) => {
+                b.add_value_rlp(k, Bytes::from(rlp::nested_lists(*depth)));
             }
             BEntry::Client(n, v, bd) => {
                 b.client_info(n.clone(), v.clone(), bd.clone());
